@@ -10,6 +10,8 @@ import Gws.Model.Close
 * `closeViaWrite` = `Close.viaWriteSplit`;
 * `StatusCode.Bytes`, `internal.CheckEncoding` = `Close.statusBytes`, `Utf8.checkEncoding`.
 -/
+set_option linter.unusedSimpArgs false
+
 namespace TransEquiv
 
 theorem CheckEncoding_eq (enabled : Bool) (opcode : UInt8) (p : Bytes) :
@@ -73,14 +75,41 @@ theorem emitClose_body_eq (checkUtf8 : Bool) (body : Bytes) :
     have hb : goCopy (List.replicate 2 (0 : UInt8)) 0 ((a :: b :: reason).take 2) = [a, b] := by
       simp [goCopy]
     simp only [Int.toNat_zero, hb, List.drop_succ_cons, List.drop_zero]
+    have hlt : Frame.be16 a b < 65536 := by
+      have := a.toNat_lt; have := b.toNat_lt; simp [Frame.be16]; omega
     have hw : goU16BE [a, b] = UInt16.ofNat (Frame.be16 a b) := by simp [goU16BE, goIdx, Frame.be16]
-    have hwn : (goU16BE [a, b]).toNat = Frame.be16 a b := by
-      rw [hw]; have := a.toNat_lt; have := b.toNat_lt; simp [Frame.be16]; omega
-    rw [classify_u16, CheckEncoding_eq, hwn]
-    simp only [Close.emitClose, Facts.opClose, Facts.closeUnsupportedData]
+    rw [hw, CheckEncoding_eq]
+    simp only [Close.emitClose, Close.classify, Facts.opClose, Facts.closeUnsupportedData, Facts.closeListed1002, Facts.closeProtocolError,
+      Facts.closeBelow1002, Facts.closeFrom1002, Facts.closeResLo1002, Facts.closeResHi1002, Facts.closeNormalBelow, Facts.closeNormalClosure]
     have h8 : (8 : UInt8).toNat = 8 := rfl
-    rw [h8, hw]
-    by_cases hce : Utf8.checkEncoding checkUtf8 8 reason = true <;> simp [hce]
+    rw [h8]
+    -- from here on the statement is about one 16-bit number: all comparisons are turned into comparisons of naturals and
+    -- every nesting of the code's conditions is split, so the proof does not depend on how the classification is spelled
+    generalize Frame.be16 a b = n at *
+    generalize hwd : UInt16.ofNat n = w
+    have hwn : w.toNat = n := by rw [← hwd]; simp; omega
+    simp only [u16_beq, UInt16.lt_iff_toNat_lt, UInt16.le_iff_toNat_le, ge_iff_le, hwn]
+    have lits : (1000 : UInt16).toNat = 1000 ∧ (1004 : UInt16).toNat = 1004 ∧ (1005 : UInt16).toNat = 1005 ∧ (1006 : UInt16).toNat = 1006
+        ∧ (1015 : UInt16).toNat = 1015 ∧ (1016 : UInt16).toNat = 1016 ∧ (3000 : UInt16).toNat = 3000 ∧ (5000 : UInt16).toNat = 5000 :=
+      ⟨rfl, rfl, rfl, rfl, rfl, rfl, rfl, rfl⟩
+    obtain ⟨l1, l2, l3, l4, l5, l6, l7, l8⟩ := lits
+    simp only [l1, l2, l3, l4, l5, l6, l7, l8]
+    simp only [List.mem_cons, List.mem_nil_iff, or_false]
+    -- the model's side is decided first (its shape is fixed); then every nesting of the code's conditions is split
+    by_cases hce : Utf8.checkEncoding checkUtf8 8 reason = true <;>
+    by_cases c1 : (n = 1004 ∨ n = 1005 ∨ n = 1006 ∨ n = 1015) <;>
+    by_cases c2 : (n < 1000 ∨ 5000 ≤ n ∨ 1016 ≤ n ∧ n < 3000) <;>
+    by_cases c3 : n < 1016 <;>
+    simp only [hce, c1, c2, c3, Bool.not_true, Bool.not_false, Bool.false_eq_true, ↓reduceIte, Except.ok.injEq, Prod.mk.injEq, true_and, and_true,
+      Bool.or_eq_true, Bool.and_eq_true, decide_eq_true_eq, Bool.not_eq_true', decide_eq_false_iff_not, Bool.not_eq_true, Bool.or_eq_false_iff] <;>
+    (repeat' split) <;>
+    first
+      | rfl
+      | (exfalso; omega)
+      | exact hwd.symm
+      | exact ⟨hwd.symm, hwd⟩
+      | (simp_all; done)
+      | (simp_all <;> omega)
 
 /-- a locally requested close: `WriteClose` builds status ++ reason with the status raised to 1000, `writeClose` cuts the
 body to the control-frame limit: together the model's `Close.localCloseBody` -/
@@ -118,11 +147,11 @@ def goErrOfReadErr : Close.ReadErr → Option GoErr
 /-- the status `emitError(true, err)` sends for an error of the read path = `Close.ReadErr.sendCode` (a status code is sent
 as it is, an `*internal.Error` with its code, anything else — I/O — with 1000); a write-side error sends 1001 -/
 theorem emitError_status_eq (e : Close.ReadErr) :
-    Trans.Conn_emitError_status true (goErrOfReadErr e) = .ok (UInt16.ofNat e.sendCode) := by
+    Trans.Conn_emitError_status (reading := true) (err := goErrOfReadErr e) = .ok (UInt16.ofNat e.sendCode) := by
   cases e <;> simp [Trans.Conn_emitError_status, goErrOfReadErr, Close.ReadErr.sendCode, Facts.closeNormalClosure]
 
 theorem emitError_status_write (err : Option GoErr) :
-    Trans.Conn_emitError_status false err = .ok (UInt16.ofNat Facts.closeGoingAway) := by
+    Trans.Conn_emitError_status (reading := false) (err := err) = .ok (UInt16.ofNat Facts.closeGoingAway) := by
   simp [Trans.Conn_emitError_status, Facts.closeGoingAway]
 
 /-! ## non-vacuity: the translated code on concrete inputs -/
